@@ -14,7 +14,7 @@
     extract_flat_eq_tree construction_pipeline_eq_compile text_parse_eq_tree text_pipeline_eq_compile
     direlem_attrs_witness
     regex_flags_documented scan_new_lossless scan_old_lossless scan_new_print_roundtrip
-    text_reaches_stream_escaped text_reaches_output_verbatim
+    text_reaches_stream_escaped text_reaches_stream_escaped_old text_reaches_output_verbatim
 -/
 import Genshi.Lemmas.TmplSimMain
 import Genshi.Lemmas.TmplSimRev
@@ -25,6 +25,7 @@ import Genshi.Lemmas.TmplParam
 import Genshi.Lemmas.TmplExtract
 import Genshi.Lemmas.TmplText
 import Genshi.Lemmas.TmplScanText
+import Genshi.Lemmas.TmplScanOld
 namespace Genshi.Props.C04
 open Genshi Genshi.Tmpl
 
@@ -634,6 +635,15 @@ example : printNew exToks = cs!"a\\\\\\{%\n{% if x % 2 %}b{{% end %}{# {%# #}\\\
 theorem text_reaches_stream_escaped (s : List Char) (hne : s ≠ []) (h : ∀ c ∈ s, c ≠ '$') :
     parseNew (escapeNew s) = .ok [.text s] ∧ (plainNew s = true → parseNew s = .ok [.text s]) :=
   ⟨parseNew_escaped hne h, parseNew_plain hne h⟩
+
+/-- **Old syntax.**  A template that is the escaped form of a non-empty text without `$` (a backslash
+    in front of every `#`) parses to exactly one TEXT event carrying that text: no line of it is
+    taken for a directive or comment line, every escape is undone. -/
+theorem text_reaches_stream_escaped_old (s : List Char) (hne : s ≠ []) (h : ∀ c ∈ s, c ≠ '$') :
+    parseOld (escapeOld s) = .ok [.text s] := parseOld_escaped hne h
+
+example : escapeOld cs!"a\n#if x\n  ## c\n" = cs!"a\n\\#if x\n  \\#\\# c\n" := by decide
+example : parseOld cs!"a\n\\#if x\n  \\#\\# c\n" = .ok [.text cs!"a\n#if x\n  ## c\n"] := by rfl
 
 /-- … and a TEXT event is rendered as itself (`_flatten`), whatever the data. -/
 theorem text_reaches_output_verbatim (s : List Char) (data : Env) (fuel : Nat) :
